@@ -75,6 +75,15 @@ Definition parse_hex_timestamp (ts : bytes) : outcome bytes :=
   let padded := repeat 48 (16 - length ts) ++ ts in
   match hex_decode padded with Some b => Ok b | None => Err (EStd 2 []) end.
 
+(** func MustHexPadLeft(hexStr string, size int) []byte — one of the two documented Must* helpers: it panics when the
+    padded text is not hexadecimal (and, like LeftPadHex, for a negative width); size*2 is Go int arithmetic *)
+Definition must_hex_pad_left (s : bytes) (size : Z) : outcome bytes :=
+  match left_pad_hex s (wrap_int64 (size * 2)) with
+  | Ok padded => match hex_decode padded with Some b => Ok b | None => Panic end
+  | Err e => Err e
+  | Panic => Panic
+  end.
+
 (** upper-case hexadecimal text of a number (big.Int.Text(16) + strings.ToUpper), "0" for 0 *)
 Definition hex_upper (v : N) : N := if v <? 10 then 48 + v else 55 + v.
 Fixpoint hex_text_fuel (fuel : nat) (n : N) (acc : bytes) : bytes :=
